@@ -85,7 +85,7 @@ for _pid, _fam in _LAY.items():
 # Repetition supplement (harness/cycles.c): one operation pair repeated more than 2^22 (costly families 2^20; thorough 2^24 / 2^22)
 # times on ONE small object: per-object state that counts operations (tickets, generations, deferred-work counters in 8, 16 or
 # 20 bits) wraps only then.
-_CYC = {'C01': 'trees', 'C02': 'trees', 'C03': 'hash', 'C07': 'heap', 'C08': 'map', 'C09': 'vector', 'C10': 'string', 'C12': 'dlist',
+_CYC = {'C15': 'all', 'C01': 'trees', 'C02': 'trees', 'C03': 'hash', 'C07': 'heap', 'C08': 'map', 'C09': 'vector', 'C10': 'string', 'C12': 'dlist',
         'C13': 'slist', 'C14': 'array'}
 for _pid, _fam in _CYC.items():
     if _pid in CHECKS:
